@@ -52,6 +52,7 @@ CLASSES = {
   ('K22-signext-computed-index', r'^deep/idx/ld16/sarr\[', "16-bit destination = element of a signed char array indexed by a variable or expression: the high byte is 0 instead of the sign extension (indexing by X / Y / a constant is extended correctly)"),
   ('K23-ternary16', r'^deep/tern/(w|wk|mixed|signed)@', "c ? a : b assigned to a 16-bit destination: evaluated per byte, the high byte is selected among the LOW bytes of the alternatives"),
   ('K24-store16-computed-index', r'^deep/idx/st/warr\[', "store to an element of a 16-bit array whose index is a variable or expression: Y is restored before the high byte is stored, which lands in another element"),
+  ('K25-borrowed-Y', r'^deep/nest/[^=@]+=avb', "t[v] with a variable index borrows Y (saved in cctmp) for the whole statement: another use of Y in the same statement (a destination arr[Y], an operand ptr[Y]) sees the borrowed value, and a composite or call operand restores Y before the indexed access is made - wrong element read or written (`X = brr[vb] | f(vc)`, `arr[Y] = brr[vb] & (vc + vd)`)"),
   ('K18-composite16', r'^expr/prec/wa=', "16-bit destination = composite expression (comparison, shift or logical sub-expression combined with another operand): the sub-expression is re-evaluated per byte and its 8-bit value is used for the high byte as well"),
  ],
 }
